@@ -45,9 +45,22 @@ class Wd:
   x: Bits33
   y: Bits1
   z: Bits16
+@bitstruct
+class Cfg:
+  mask: Bits4
+  base: Bits8
+@bitstruct
+class Cfg2:
+  c: Cfg
+  k: Bits16
 '''
 STRUCTS = {'Pt': [('a', 8), ('b', 4)], 'Outer': [('p', 'Pt'), ('c', 4)], 'Wd': [('x', 33), ('y', 1), ('z', 16)]}
 STRUCT_ID = {'Pt': 0, 'Outer': 1, 'Wd': 2}
+CONST_STRUCTS = {'Cfg': [('mask', 4), ('base', 8)], 'Cfg2': [('c', 'Cfg'), ('k', 16)]}
+
+class Unmodelled(Exception):
+  """the block uses a construct that RTL/Syntax.v has no constructor for; it is still type-checked, simulated and probed, and
+  the property is evaluated on those real observations"""
 
 def type_width(t):
   return t if isinstance(t, int) else sum(type_width(ft) for _, ft in STRUCTS[t])
@@ -68,6 +81,8 @@ class Design:
   """signal declarations of one generated component"""
   def __init__(s):
     s.sigs = []          # (name, ctor, type)
+    s.extra = []         # further construct() lines: constants (closure / attribute), lists of constants, lists of signals
+    s.siglists = []      # (name, count, width) of InPort lists declared in s.extra (driven after the plain signals)
   def add(s, ctor, t):
     name = {'InPort': 'i', 'OutPort': 'o', 'Wire': 'w'}[ctor] + str(len(s.sigs))
     s.sigs.append((name, ctor, t)); return len(s.sigs) - 1
@@ -86,7 +101,7 @@ class Design:
         ents.append(f'({si}%nat, {natlist(p)}, {{| fw := {w}; flo := {l}; fstruct := {"None" if st is None else f"Some {STRUCT_ID[st]}%nat"} |}})')
     return coq_list(ents)
   def decl_src(s):
-    return [f's.{n} = {c}( {t if isinstance(t, str) else "Bits" + str(t)} )' for n, c, t in s.sigs]
+    return [f's.{n} = {c}( {t if isinstance(t, str) else "Bits" + str(t)} )' for n, c, t in s.sigs] + list(s.extra)
 
 def natlist(p):
   return '[' + '; '.join(f'{x}%nat' for x in p) + ']'
@@ -98,7 +113,9 @@ PYRED = {'RAnd': 'reduce_and', 'ROr': 'reduce_or', 'RXor': 'reduce_xor'}
 
 def children(e):
   k = e[0]
-  if k in ('sig', 'lit', 'sized', 'free', 'tmp', 'loop'): return []
+  if k in ('sig', 'lit', 'sized', 'free', 'tmp', 'loop', 'cbits', 'cint', 'fbits', 'carr'): return []
+  if k == 'cidx': return [e[1], e[2]]
+  if k == 'cfield': return [e[1]]
   if k in ('cast', 'zext', 'sext', 'trunc', 'red'): return [e[2]]
   if k == 'inv': return [e[1]]
   if k in ('bin', 'cmp'): return [e[2], e[3]]
@@ -119,6 +136,9 @@ def expr_src(D, e, probe=None, k=0):
   sub = [expr_src(D, c, probe, ki) for c, ki in zip(children(e), ks)]
   if kind == 'sig': t = D.sig_src(e[1], e[2])
   elif kind == 'lit': t = str(e[1])
+  elif kind in ('cbits', 'cint', 'fbits', 'carr'): t = e[1]          # constant folded by the generator / free variable / list
+  elif kind == 'cidx': t = f'{sub[0]}[{sub[1]}]'
+  elif kind == 'cfield': t = f'{sub[0]}.{e[2]}'
   elif kind == 'sized': t = f'Bits{e[1]}( {e[2]} )'
   elif kind == 'free': t = f'K{e[2]}'
   elif kind == 'tmp': t = f't{e[1]}'
@@ -141,6 +161,9 @@ def expr_coq(e):
   k = e[0]
   if k == 'sig': return f'(ESig {e[1]}%nat {natlist(e[2])})'
   if k == 'lit': return f'(ELit {zlit(e[1])})'
+  if k == 'cbits': return f'(ESized {e[2]} {zlit(e[3])})'     # s.C / cfg.mask / s.bl[1] / s.cfgs[0].mask: the generator folds it to SizeCast(Number)
+  if k == 'cint': return f'(ELit {zlit(e[2])})'               # s.N / s.il[1]: folded to Number
+  if k in ('fbits', 'carr', 'cidx', 'cfield'): raise Unmodelled(k)
   if k == 'sized': return f'(ESized {e[1]} {zlit(e[2])})'
   if k == 'free': return f'(EFree {zlit(e[1])})'
   if k == 'tmp': return f'(ETmp {e[1]}%nat)'
@@ -221,6 +244,8 @@ def expr_nodes(D, e, lbl, k=0, exempt=False):
       p = p[:-1]; out.append((f'sigprefix:{D.sig_src(e[1], p)}', None, exempt))
   elif kind == 'sized':
     out.append((f'number:{e[2]}', None, exempt))
+  elif kind == 'cbits':
+    out.append((f'number:{e[3]}', None, exempt))
   kk = k + 1
   for j, c in enumerate(children(e)):
     out += expr_nodes(D, c, lbl, kk, exempt or (kind == 'slice' and j == 2)); kk += esize(c)
@@ -267,7 +292,8 @@ def component_src(D, ss, ff, frees, name='T', probe=False):
   return STRUCT_SRC + f'\nclass {name}( Component ):\n  def construct( s ):\n{body}\n'
 
 def probe_func_src(D, ss, frees):
-  lines = [f'K{j} = {v}' for j, v in enumerate(frees)] + ['def __blk( s, __p ):'] + stmts_src(D, ss, 2, True)
+  closure = [l for l in D.extra if not l.startswith('s.')]       # closure constants of construct()
+  lines = closure + [f'K{j} = {v}' for j, v in enumerate(frees)] + ['def __blk( s, __p ):'] + stmts_src(D, ss, 2, True)
   return '\n'.join(lines) + '\n'
 
 # ------------------------------------------------------------------ the real passes
@@ -302,10 +328,17 @@ def real_typecheck(cls):
   ups = m.get_metadata(BehavioralRTLIRGenL1Pass.rtlir_upblks)
   (blk, up), = ups.items()
   out = []
+  shift_ok = [True]
+  def width(node):
+    try: return int(node.Type.get_dtype().get_length())
+    except Exception: return None            # rt.Array (list of constants / signals), component
   def walk(node):
     if isinstance(node, _OPS): return
+    if isinstance(node, bir.BinOp) and isinstance(node.op, (bir.ShiftLeft, bir.ShiftRightLogic)) and node.left._is_explicit:
+      lw, rw = width(node.left), width(node.right)
+      if not ((rw == lw) if node.right._is_explicit else (rw is not None and lw is not None and rw <= lw)): shift_ok[0] = False
     if not isinstance(node, (bir.Assign, bir.If, bir.For, bir.CombUpblk, bir.SeqUpblk)):
-      out.append((int(node.Type.get_dtype().get_length()), bool(node._is_explicit)))
+      out.append((width(node), bool(node._is_explicit)))
     for f, v in vars(node).items():
       if f in ('ast', 'Type', 'component', 'base', 'size'): continue
       if isinstance(v, bir.BaseBehavioralRTLIR): walk(v)
@@ -313,7 +346,7 @@ def real_typecheck(cls):
         for x in v:
           if isinstance(x, bir.BaseBehavioralRTLIR): walk(x)
   walk(up)
-  return ('accept', out)
+  return ('accept', out, shift_ok[0])
 
 def set_inputs(m, D, inputs):
   from pymtl3 import Bits
@@ -324,6 +357,11 @@ def set_inputs(m, D, inputs):
       T = type(obj); obj @= T.from_bits(Bits(type_width(t), inputs[si]))
     else:
       obj @= inputs[si]
+
+  k = len(D.sigs)
+  for name, cnt, w in D.siglists:
+    for j in range(cnt):
+      getattr(m, name)[j] @= inputs[k]; k += 1
 
 def read_sigs(m, D):
   return [int(getattr(m, n).to_bits()) for n, c, t in D.sigs]
@@ -348,7 +386,8 @@ def real_probe(cls, D, ss, frees, inputs, mod):
   events = []
   def p(lbl, k, v):
     if hasattr(v, 'nbits'): events.append((lbl, k, (1, int(v.nbits))))
-    else: events.append((lbl, k, (0, int(v))))
+    elif isinstance(v, int): events.append((lbl, k, (0, int(v))))
+    else: events.append((lbl, k, (3, 0)))           # a python list (constant / signal list): no width
     return v
   ns = dict(vars(mod))
   exec(compile(probe_func_src(D, ss, frees), '<probe>', 'exec'), ns)
@@ -508,7 +547,11 @@ class BlockGen:
         if rng.random() < 0.3: a, b = b, a
         return ('cmp', rng.choice(list(PYCMP)), a, b)
       if q < 0.6:
-        s.features.add('reduce'); return ('red', rng.choice(list(PYRED)), s.gen_bits(rng.choice(WIDTHS), d - 1))
+        s.features.add('reduce')
+        k = rng.choice(WIDTHS); opnd = s.gen_bits(k, d - 1)
+        if opnd[0] == 'if' and rng.random() < 0.7: opnd = ('if', opnd[1], s.leaf(k), ('lit', rng.randrange(0, 40)))   # reduce_or / reduce_xor of a (non-negative) python int
+        elif opnd[0] == 'if': opnd = s.leaf(k)      # never a possibly negative int: helpers.reduce_xor would not terminate
+        return ('red', rng.choice(list(PYRED)), opnd)
       if q < 0.9:
         return s.gen_index()
     return s.leaf(w)
@@ -651,6 +694,8 @@ def rand_inputs(rng, D):
     w = type_width(t)
     if c != 'InPort': out.append(0)
     else: out.append(rng.choice([0, (1 << w) - 1, rng.getrandbits(w), rng.getrandbits(w), rng.getrandbits(w)]))
+  for name, cnt, w in D.siglists:
+    out += [rng.getrandbits(w) for _ in range(cnt)]
   return out
 
 # ------------------------------------------------------------------ correspondence
@@ -737,16 +782,23 @@ def process_block(ctx, D, ss, ff, frees, ninputs, tag, rng, feats=()):
   c.D, c.ss, c.ff, c.frees, c.tag, c.feats = D, ss, ff, frees, tag, feats
   c.src = component_src(D, ss, ff, frees)
   c.body = c.src.split('class T( Component ):')[1]
+  c.modelled = True
   cls, mod = load_source(ctx, c.src, 'T')
   c.tc = real_typecheck(cls)
   if c.tc[0] in ('elab', 'syntax'):
     return c
   c.nodes = stmt_nodes(D, ss)
+  try: block_coq(ss); c.modelled = True
+  except Unmodelled: c.modelled = False
   c.runs = []
   for _ in range(ninputs):
     ins = rand_inputs(rng, D)
     sim = real_simulate(cls, D, ff, ins)
     pr = real_probe(cls, D, ss, frees, ins, mod)
+    if (sim[0] == 'ok') != (pr[0] == 'ok') or (sim[0] == 'err' and sim[1] != pr[1]):
+      ctx.violation(f'C10:probe-run:{hashlib.sha1(c.body.encode()).hexdigest()[:10]}',
+                    f'the probed re-execution of the block behaves differently from the simulation: {sim[:2]} vs {pr[:2] if pr[0] == "err" else "ok"} block:{c.body[-300:]}',
+                    {'component_source': c.src, 'inputs': ins}, found_input=False)
     c.runs.append((ins, sim, pr))
   return c
 
@@ -768,7 +820,8 @@ def case_term(c):
 def width_vs_runtime(c):
   """property clause 1 on the real observations only: for an accepted block, the checker's width of every probed node
   equals the nbits of the value python computed there (ints: the value fits the width).  Returns list of problems."""
-  if c.tc[0] != 'accept' or len(c.tc[1]) != len(c.nodes): return []
+  if c.tc[0] != 'accept': return []
+  if len(c.tc[1]) != len(c.nodes): return [('(harness)', f'RTLIR tree has {len(c.tc[1])} expression nodes, the generated term describes {len(c.nodes)}', None)]
   pos = {key: i for i, (d, key, exempt) in enumerate(c.nodes) if key is not None and not exempt}
   bad = []
   for ins, sim, pr in c.runs:
@@ -776,6 +829,7 @@ def width_vs_runtime(c):
       i = pos.get((l, k))
       if i is None: continue
       w, ex = c.tc[1][i]
+      if w is None or isbits == 3: continue
       if isbits and v != w: bad.append((c.nodes[i][0], f'checker width {w}, runtime Bits{v}', ins))
       elif not isbits and not (0 <= v < (1 << w)): bad.append((c.nodes[i][0], f'checker width {w}, runtime int {v}', ins))
     if bad: break
@@ -784,7 +838,7 @@ def width_vs_runtime(c):
 def replay_of(c, extra=None):
   d = {'component_source': c.src, 'tag': c.tag, 'checker': list(c.tc[:1]) + [str(c.tc[1])[:600]],
        'runs': [{'inputs': ins, 'simulation': sim[:3] if sim[0] == 'err' else ['ok', sim[1]]} for ins, sim, pr in c.runs[:4]],
-       'coq_case': case_term(c)[:6000]}
+       'coq_case': case_term(c)[:6000] if c.modelled else '(construct without a Coq constructor: property evaluated on the real observations only)'}
   if extra: d.update(extra)
   return d
 
@@ -796,6 +850,25 @@ def check_cases(ctx, cases, section, lit_attr=None):
     if c.tc[0] in ('elab', 'syntax'):
       ctx.extra['unmodelled_' + c.tc[0]] = ctx.extra.get('unmodelled_' + c.tc[0], 0) + 1
       ctx.note(f'{section}: block outside the front end ({c.tc[0]}): {c.tc[1][:160]}')
+  # blocks outside RTL/Syntax.v: no Coq comparison, but the property is evaluated on the real observations
+  for c in [c for c in live if not c.modelled]:
+    ctx.extra['unmodelled_blocks_property_evaluated'] = ctx.extra.get('unmodelled_blocks_property_evaluated', 0) + 1
+    h = hashlib.sha1(c.body.encode()).hexdigest()[:10]
+    nerr = sum(1 for ins, sim, pr in c.runs if sim[0] == 'err')
+    ctx.count((section, c.body), True, cls=f'{section}:unmodelled:{c.tc[0]}' + (':raises' if nerr else ''))
+    for f in c.feats: ctx.hist['feature:' + f] = ctx.hist.get('feature:' + f, 0) + 1
+    if c.tc[0] != 'accept' or block_has_cast(c.ss): continue
+    msg = next((sim[2] for ins, sim, pr in c.runs if sim[0] == 'err' and sim[1] == 'EValue'), None)
+    if not c.tc[2]: msg = None                 # a shift amount narrower / wider than the shifted value: exempt from the no-error clause
+    bad = width_vs_runtime(c)
+    if msg is None and not bad: continue
+    # attribution without the Coq model: python-int arithmetic whose result does not fit the assigned width is family S3
+    cause = 'S3' if bad and bad[0][0].startswith('bin:') and 'runtime int' in bad[0][1] else None
+    key = f'C10:{cause}:missing-check' if cause else f'C10:unmodelled:{h}'
+    what = (f'accepted block: sub-expression {bad[0][0]}: {bad[0][1]}' if bad else 'the RTLIR type checker ACCEPTS this block') + \
+           (f'; simulating it raises {msg[:160]}' if msg else '') + (f' [cause {cause}]' if cause else '') + f' block:{c.body[-300:]}'
+    ctx.violation(key, what, replay_of(c, {'error': msg, 'node': bad[0][0] if bad else None, 'detail': bad[0][1] if bad else None, 'cause': cause}))
+  live = [c for c in live if c.modelled]
   if not live: return
   terms = [case_term(c) for c in live]
   RULES = [1, 2, 3, 4, 5, 6, 7, 13, 10, 11]
@@ -973,6 +1046,150 @@ def directed_cases(ctx):
   ctx.sample({'section': 'directed', 'tag': cases[0].tag, 'block': cases[0].body, 'checker': str(cases[0].tc)[:200], 'simulation': str(cases[0].runs[0][1])[:200]})
   ctx.extra['directed_verdicts'] = {c.tag.split(':', 1)[1]: c.tc[0] + ('/raises' if any(s[0] == 'err' and s[1] == 'EValue' for _, s, _ in c.runs) else '') for c in cases}
 
+
+class ConstGen:
+  """blocks over free-variable constants: closure ints / Bits / bitstruct instances, component-attribute constants, lists of
+  them (constant index: folded by the RTLIR generator; signal index: rt.Array of rt.Const), their (nested) fields, and lists of
+  signals — combined with explicitly sized signals of equal and of different width."""
+  def __init__(s, rng):
+    s.rng = rng
+    D = s.D = Design()
+    r = rng
+    s.sig = {}
+    for w in (1, 2, 3, 4, 8, 16): s.sig[w] = D.add('InPort', w)
+    n = s.n = r.choice([2, 3, 4])
+    s.selw = 1 if n <= 2 else 2
+    s.sel = D.add('InPort', s.selw)
+    s.bw = r.choice([3, 4, 8])
+    s.kbits = r.choice([2, 3, 4])
+    vals = lambda w: [r.getrandbits(w) for _ in range(n)]
+    s.bl, s.cm, s.cb, s.ck = vals(s.bw), vals(4), vals(8), vals(16)
+    s.ks = [(1 << (s.kbits - 1)) | r.getrandbits(s.kbits - 1) for _ in range(n)]      # all of the same bit length
+    s.K, s.Bv, s.N = r.getrandbits(3), r.getrandbits(s.bw), r.getrandbits(4)
+    cfg = lambda i: f'Cfg( {s.cm[i]}, {s.cb[i]} )'
+    D.extra += [f'K0 = {s.K}', f'B0 = Bits{s.bw}( {s.Bv} )', f'cfg0 = {cfg(0)}',
+                'cfgl = [ ' + ', '.join(cfg(i) for i in range(n)) + ' ]',
+                'kl = [ ' + ', '.join(map(str, s.ks)) + ' ]',
+                f's.N0 = {s.N}', f's.C0 = Bits{s.bw}( {s.Bv} )', f's.cfg = {cfg(1)}', f's.cfg2 = Cfg2( {cfg(0)}, {s.ck[0]} )',
+                's.cfgs = [ ' + ', '.join(cfg(i) for i in range(n)) + ' ]',
+                's.cfg2s = [ ' + ', '.join(f'Cfg2( {cfg(i)}, {s.ck[i]} )' for i in range(n)) + ' ]',
+                's.ks = [ ' + ', '.join(map(str, s.ks)) + ' ]',
+                's.bl = [ ' + ', '.join(f'Bits{s.bw}( {v} )' for v in s.bl) + ' ]',
+                f's.ins = [ InPort( Bits{s.bw} ) for _ in range({n}) ]']
+    D.siglists.append(('ins', n, s.bw))
+    s.frees = []
+    s.feats = set()
+
+  def operands(s):
+    """(term, width, runtime kind) of every explicitly sized constant-derived operand"""
+    r = s.rng; n = s.n; j = r.randrange(n)
+    sel = ('sig', s.sel, ())
+    out = [
+      (('cbits', 's.C0', s.bw, s.Bv), s.bw, 'attr-bits'),
+      (('fbits', 'B0', s.bw, s.Bv), s.bw, 'closure-bits'),
+      (('cbits', 'cfg0.mask', 4, s.cm[0]), 4, 'closure-struct-field'),
+      (('cbits', 's.cfg.base', 8, s.cb[1]), 8, 'attr-struct-field'),
+      (('cbits', 's.cfg2.c.mask', 4, s.cm[0]), 4, 'attr-nested-field'),
+      (('cbits', 's.cfg2.k', 16, s.ck[0]), 16, 'attr-nested-field'),
+      (('cbits', f's.bl[{j}]', s.bw, s.bl[j]), s.bw, 'bits-list-const-index'),
+      (('cbits', f's.cfgs[{j}].mask', 4, s.cm[j]), 4, 'struct-list-const-index'),
+      (('cbits', f'cfgl[{j}].base', 8, s.cb[j]), 8, 'closure-struct-list-const-index'),
+      (('cbits', f's.cfg2s[{j}].c.base', 8, s.cb[j]), 8, 'struct-list-const-index'),
+      (('cidx', ('carr', 's.bl'), sel), s.bw, 'bits-list-signal-index'),
+      (('cfield', ('cidx', ('carr', 's.cfgs'), sel), 'mask'), 4, 'struct-list-signal-index'),
+      (('cfield', ('cidx', ('carr', 's.cfgs'), sel), 'base'), 8, 'struct-list-signal-index'),
+      (('cfield', ('cidx', ('carr', 'cfgl'), sel), 'mask'), 4, 'closure-struct-list-signal-index'),
+      (('cfield', ('cfield', ('cidx', ('carr', 's.cfg2s'), sel), 'c'), 'mask'), 4, 'struct-list-signal-index-nested'),
+      (('cfield', ('cidx', ('carr', 's.cfg2s'), sel), 'k'), 16, 'struct-list-signal-index-nested'),
+      (('cidx', ('carr', 's.ks'), sel), s.kbits, 'int-list-signal-index'),
+      (('cidx', ('carr', 'kl'), sel), s.kbits, 'closure-int-list-signal-index'),
+      (('cidx', ('carr', 's.ins'), ('lit', j)), s.bw, 'signal-list-const-index'),
+      (('cidx', ('carr', 's.ins'), sel), s.bw, 'signal-list-signal-index'),
+    ]
+    return out
+
+  def ints(s):
+    r = s.rng; j = r.randrange(s.n)
+    s.frees = [s.K]
+    return [(('cint', 's.N0', s.N), 'attr-int'), (('cint', f's.ks[{j}]', s.ks[j]), 'int-list-const-index'),
+            (('cint', f'kl[{j}]', s.ks[j]), 'closure-int-list-const-index'), (('lit', s.N), 'literal')]
+
+  def sig_of(s, w):
+    """an explicitly sized signal expression of width w"""
+    r = s.rng
+    if w in s.sig and r.random() < 0.7: return ('sig', s.sig[w], ())
+    big = [x for x in s.sig if x > w]
+    if big and r.random() < 0.6:
+      b = r.choice(big); lo = r.randrange(0, b - w + 1)
+      return ('slice', ('sig', s.sig[b], ()), ('lit', lo), ('lit', lo + w))
+    small = [x for x in s.sig if x < w]
+    if small: return ('zext', w, ('sig', s.sig[r.choice(small)], ()))
+    return ('trunc', w, ('sig', s.sig[16], ()))
+
+  def build(s):
+    r = s.rng
+    x, xw, kind = r.choice(s.operands()); s.feats.add(kind)
+    same = r.random() < 0.6
+    ow = xw if same else r.choice([w for w in (1, 2, 3, 4, 5, 8, 9, 16) if w != xw])
+    q = r.random()
+    if q < 0.25:
+      y, yw, k2 = r.choice(s.operands()); s.feats.add(k2)
+      if same and yw != xw: y, yw = s.sig_of(xw), xw
+    else:
+      y, yw = s.sig_of(ow), ow
+    if r.random() < 0.5: x, xw, y, yw = y, yw, x, xw
+    form = r.choice(['arith', 'arith', 'bitwise', 'compare', 'ifexp', 'assign', 'int-operand', 'int-compare', 'concat', 'shift'])
+    s.feats.add('form:' + form + (':same-width' if same else ':other-width'))
+    resw = xw
+    if form == 'arith': e = ('bin', r.choice(['Add', 'Sub', 'Mul']), x, y)
+    elif form == 'bitwise': e = ('bin', r.choice(['And', 'Or', 'Xor']), x, y)
+    elif form == 'compare': e = ('cmp', r.choice(list(PYCMP)), x, y); resw = 1
+    elif form == 'ifexp': e = ('if', ('index', ('sig', s.sig[8], ()), ('lit', r.randrange(8))), x, y)
+    elif form == 'assign': e = x if r.random() < 0.5 else y; resw = xw if e is x else yw
+    elif form == 'int-operand':
+      i, ik = r.choice(s.ints()); s.feats.add(ik)
+      v = i[2] if i[0] == 'cint' else i[1]
+      if v >= (1 << xw): e = x          # keep implicit operands inside the operand width (the too-wide case is finding S-families)
+      else: e = ('bin', r.choice(['Add', 'And', 'Xor']), x, i) if r.random() < 0.5 else ('bin', r.choice(['Add', 'Or']), i, x)
+    elif form == 'int-compare':
+      i, ik = r.choice(s.ints()); s.feats.add(ik)
+      v = i[2] if i[0] == 'cint' else i[1]
+      e = ('cmp', r.choice(list(PYCMP)), x, i) if v < (1 << xw) else ('cmp', 'CEq', x, s.sig_of(xw)); resw = 1
+    elif form == 'concat': e = ('concat', [x, y]); resw = xw + yw
+    else: e = ('bin', r.choice(['LShift', 'RShift']), x, y)
+    tw = resw if r.random() < 0.8 else max(1, resw + r.choice([-1, 1, 4]))
+    o = s.D.add('OutPort', tw)
+    ss = [('assign', 0, ('lsig', o, ()), e, True)]
+    if r.random() < 0.3:       # the same operand also through a temporary and inside an if statement
+      s.feats.add('tmp+if')
+      o2 = s.D.add('OutPort', resw)
+      ss = [('assign', 0, ('ltmp', 0), e, True),
+            ('if', 1, ('index', ('sig', s.sig[8], ()), ('lit', 0)), [('assign', 2, ('lsig', o2, ()), ('tmp', 0), True)], []),
+            ('assign', 3, ('lsig', o, ()), ('tmp', 0), True)]
+    return ss
+
+def constant_cases(ctx, n, ninputs):
+  cases = []
+  for i in range(n):
+    g = ConstGen(ctx.rng)
+    ss = g.build()
+    c = process_block(ctx, g.D, ss, False, g.frees, ninputs, f'constants:{i}', ctx.rng, feats=sorted(g.feats))
+    cases.append(c)
+  # the shape of mutation-prone code paths, always present: a Bits field of a constant struct list element selected by a signal
+  g = ConstGen(ctx.rng); sel = ('sig', g.sel, ())
+  for k, (fld, fw) in enumerate((('mask', 4), ('base', 8))):
+    for w in (4, 8):
+      D = ConstGen(ctx.rng); D.D.extra = list(g.D.extra); D.D.siglists = list(g.D.siglists)
+      o = D.D.add('OutPort', w)
+      ss = [('assign', 0, ('lsig', o, ()), ('bin', 'And', ('sig', D.sig[w], ()), ('cfield', ('cidx', ('carr', 's.cfgs'), ('sig', D.sel, ())), fld)), True)]
+      D.selw = g.selw
+      if D.selw != g.selw: continue
+      cases.append(process_block(ctx, D.D, ss, False, [], ninputs, f'constants:fixed:{fld}:{w}', ctx.rng, feats=('struct-list-signal-index',)))
+  check_cases(ctx, cases, 'constants')
+  for c in cases[:2]:
+    ctx.sample({'section': 'constants', 'modelled_in_coq': c.modelled, 'block': c.body[-500:], 'checker': str(c.tc)[:200],
+                'simulation': str(c.runs[0][1])[:160] if c.tc[0] not in ('elab', 'syntax') else None})
+
 def random_cases(ctx, n, ninputs):
   cases = []
   for i in range(n):
@@ -990,6 +1207,7 @@ def run(ctx):
   quick = ctx.tier == 'quick'
   literal_cases(ctx, 70 if quick else 80)
   directed_cases(ctx)
+  constant_cases(ctx, 160 if quick else 1200, 4 if quick else 6)
   random_cases(ctx, 400 if quick else 3000, 6 if quick else 8)
 
 def main(ctx):
